@@ -585,11 +585,13 @@ def decorator_lift_transform_cached(transform, class_fn, **trafo_kwargs):
     class_fns = (class_fn,)
   prewrapped_fns = [wrap_method_once(class_fn) for class_fn in class_fns]
   trafo_fn = None
+  # Module state (e.g. the autoname cursor) left by the traced call, per module
+  # fingerprint: a cache hit skips the Python body, so it is re-applied then.
+  traced_states: dict[Any, Any] = {}
 
   @functools.wraps(prewrapped_fns[0])
   def wrapped_fn(self: Module, *args, **kwargs):
     nonlocal trafo_fn
-    state = self._state.export()
 
     # increment rng counters for all rngs in scope
     with fork_rngs(self):
@@ -607,9 +609,10 @@ def decorator_lift_transform_cached(transform, class_fn, **trafo_kwargs):
         if not multi_scope:
           scopes = [scopes]
         cloned, args, kwargs = set_module_scopes(self, args, kwargs, scopes)
-        object.__setattr__(cloned, '_state', state.export())
+        object.__setattr__(cloned, '_state', self._state.export())
         res = prewrapped_fn(cloned, *args, **kwargs)
         self._state.reimport(cloned._state)
+        traced_states[module_hash] = cloned._state.export()
         _test_transformed_return_values(
             res, getattr(class_fn, '__name__', None)
         )
@@ -644,7 +647,10 @@ def decorator_lift_transform_cached(transform, class_fn, **trafo_kwargs):
       # get a hashable proxy object for the Module
       hash_key = _HashableProxy.from_module(self)
 
-      return trafo_fn(module_scopes, hash_key, *args, **kwargs)
+      res = trafo_fn(module_scopes, hash_key, *args, **kwargs)
+      if hash_key in traced_states:
+        self._state.reimport(traced_states[hash_key])
+      return res
 
   return wrapped_fn
 
